@@ -89,8 +89,9 @@ func c02Scenarios(tier string) []engine.Scenario {
 	type variant struct {
 		name      string
 		totp, sms bool
+		shared    bool // both accounts registered the same phone number (full scenario only): a code belongs to the login it was sent for
 	}
-	variants := []variant{{"totp", true, false}, {"sms", false, true}, {"both", true, true}}
+	variants := []variant{{"totp", true, false, false}, {"sms", false, true, false}, {"both", true, true, false}, {"sms-shared-number", false, true, true}}
 	var out []engine.Scenario
 	for _, v := range variants {
 		v := v
@@ -99,6 +100,9 @@ func c02Scenarios(tier string) []engine.Scenario {
 			for _, recLogin := range []bool{false, true} {
 				if recLogin && tier != "thorough" && v.name != "sms" {
 					continue
+				}
+				if v.shared && (adv || recLogin) {
+					continue // an adversary who reads the shared phone holds the victim's second factor: outside the adversary model
 				}
 				recLogin := recLogin
 				for _, e500 := range []bool{false, true} {
@@ -136,6 +140,9 @@ func c02Scenarios(tier string) []engine.Scenario {
 							}
 							if v.sms {
 								va.SMSNumber, aa.SMSNumber = N1, N2
+							}
+							if v.shared {
+								aa.SMSNumber = N1
 							}
 							flows.SeedAcct(s, w, va)
 							flows.SeedAcct(s, w, aa)
